@@ -41,8 +41,8 @@ func (g *docGen) ws() {
 	}
 }
 
-var recKeyAlphabet = []int{'a', 'b', 0xE9, 0x2028, 0xE000, 0xFB01, 0xFFFF, 0x10000, 0x1F600, 0x10FFFF, '"', '\\', 0, 0x1F, '/', 0x7F}
-var recOddities = []int{0x2028, 0x2029, 0xFEFF, 0xFFFD, 0xFFFE, 0xFFFF, 0xD7FF, 0xE000, 0x10000, 0x10FFFF, 0x7F, 0x80, 0x7FF, 0x800}
+var recKeyAlphabet = []int{'a', 'b', 'A', ' ', '!', '#', '[', ']', 0xE9, 0x2028, 0xE000, 0xFB01, 0xFFFF, 0x10000, 0x103FF, 0x10400, 0x10FC00, 0x1F600, 0x10FFFF, '"', '\\', 0, 0x1F, '/', 0x7F}
+var recOddities = []int{0x2028, 0x2029, 0xFEFF, 0xFFFD, 0xFFFE, 0xFFFF, 0xD7FF, 0xE000, 0x10000, 0x103FF, 0x10400, 0x10FC00, 0x10FFFF, 0x7F, 0x80, 0x7FF, 0x800, 0x20, 0x1F}
 
 func (g *docGen) codePoint() int {
 	r := g.r
@@ -75,9 +75,9 @@ func spellingsOf(cp int) []int {
 		sp = append(sp, spShort)
 	}
 	if cp <= 0xFFFF {
-		sp = append(sp, spULower, spUUpper)
+		sp = append(sp, spULower, spUUpper, spMixed)
 	} else {
-		sp = append(sp, spPairLower, spPairUpper)
+		sp = append(sp, spPairLower, spPairUpper, spMixed)
 	}
 	return sp
 }
@@ -116,6 +116,8 @@ var recSpecialNumbers = []string{
 	"9007199254740993", "90071992547409910", "900719925474099", "0.5", "-0.5", "-0.0", "0.0", "1.0", "1e2", "1E2",
 	"1e-05", "-1e-05", "0e1", "-0e1", "0E0", "1.5e300", "1e400", "-0.05", "-0.0e-0", "10.0", "-10", "1e+2", "2E-03",
 	"123456789012345678901234567890", "100", "-100",
+	"1E-05", "1E+05", "1e+05", "1e05", "1E05", "1e-0", "1E-0", "1E+0", "-0e-0", "-0E-05", "1.5E-05", "10e-01", "-1E-05",
+	"9007199254740990", "-9007199254740990", "1000000000000000", "9999999999999999", "10000000000000000",
 	// where a 64-bit integer parse saturates or wraps: 2^63-1, 2^63, 2^64-1, 2^64, 2^64+1, 2^64+2^53-1, 2^64+2^53, 2^65
 	"9223372036854775807", "9223372036854775808", "-9223372036854775808", "-9223372036854775809",
 	"18446744073709551615", "18446744073709551616", "18446744073709551617", "-18446744073709551615",
@@ -218,6 +220,10 @@ func (g *docGen) value(depth int) {
 	default:
 		g.emit(tLBrace, false)
 		n := r.Intn(5)
+		if depth <= 1 && r.Intn(150) == 0 {
+			n = 120 + r.Intn(20) // around the 128 entries the library sorts without allocating
+		}
+		dupOK := r.Intn(40) == 0 // duplicate keys: outside the property's "valid", only "no panic"
 		seen := map[string]bool{}
 		var alphabet []int
 		if r.Intn(2) == 0 {
@@ -227,7 +233,7 @@ func (g *docGen) value(depth int) {
 		for i := 0; i < n; i++ {
 			key := g.randString(alphabet)
 			id := fmt.Sprint(key)
-			if seen[id] {
+			if seen[id] && !dupOK {
 				continue
 			}
 			seen[id] = true
